@@ -30,7 +30,7 @@ def run(ctx):
         return
     for w in ("SpmcB_stale_clone.case", "SpmcB_reopened.case"):
         chanlib.witness_tie(ctx, h, drv, w)
-    n = 3000 if ctx.quick else 60000
+    n = 3000 if ctx.quick else 20000
     chanlib.tie(ctx, "spmc-seq-differential", [h, "gen", "--seed", str(ctx.seed), "--cases", str(n), "--mode", "seq",
                                                 "--tier", ctx.tier, "--flavours", "spmc,spmc_async"], [drv])
     chanlib.tie(ctx, "spmc-conc-monitors", [h, "gen", "--seed", str(ctx.seed), "--cases", str(n), "--mode", "conc",
